@@ -50,6 +50,8 @@ def classify(tok):
     if isnum and tok[0] == '.':
         return 'dnum'
     if isnum and (tok[0].isdigit() or tok[0] in '+-'):
+        if '.' not in tok:
+            return 'enum'       # exponent notation without a decimal point (`5E-1`): not an int, but no '.' either
         return 'big' if abs(v) > 4.0 else 'num'
     if tok[0].isdigit() or tok[0] in '+-':
         return 'sym'
@@ -115,7 +117,7 @@ def form_desc(kinds):
     """`bare`, `i`, `n2,w3` ... (run-length encoded lexical classes)"""
     if not kinds:
         return 'bare'
-    ab = dict(int='i', num='n', big='N', dnum='d', word='w', sym='s')
+    ab = dict(int='i', num='n', big='N', dnum='d', word='w', sym='s', enum='e')
     out = []
     for k in kinds:
         if out and out[-1][0] == ab[k]:
@@ -188,7 +190,7 @@ def build(case):
     if pos == 'atoms':
         add(line, 'test')
     if pos == 'atomline':
-        add(line, 'atom:' + line[0].upper()[:4])
+        add(line, 'atom:' + line[0].upper()[:4])      # (names are compared without regard to case)
     if pos == 'frag':
         for l in case['block']:
             add(l, 'test')
@@ -335,12 +337,12 @@ def evaluate(ctx, cases, stream=None):
         last = nphys - 1
         ctx.count([st, case.get('kwtext', case['kw']), case['toks'], case['pos'], case.get('symm', True), case.get('wrap', False)],
                   nontrivial=acc['branch'] not in ('none', 'else') or case['pos'] == 'frag',
-                  tags=[st, 'kw:' + kw, 'pos:' + case['pos'], 'branch:' + acc['branch'][:24], 'nparams:%d' % len(kinds)] +
+                  tags=[st, 'kw:' + kw, 'pos:' + case['pos'], 'spelling:' + case.get('spell', 'plain'), 'branch:' + acc['branch'][:24], 'nparams:%d' % len(kinds)] +
                        ['impl-inner:%s' % family(obs['quiet']['inner'])],
                   sample=dict(stream=st, line=' '.join([case.get('kwtext', case['kw'])] + case['toks']), pos=case['pos'], impl=obs['quiet'],
                               model=models['quiet']) if len(kinds) > 2 else None)
         payload = dict(case=case, stream=st, text=text, actual=obs, model=models)
-        base = f'C02|kw={kw}|form={fd}'
+        base = f'C02|kw={kw}|form={fd}' + (f'|{case["spell"]}' if case.get('spell') else '')
         # ---- correspondence: implementation vs model (parseAll), every mode that ran --------------------------
         for m in modes:
             o, mo = obs[m], models[m]
@@ -376,7 +378,7 @@ def evaluate(ctx, cases, stream=None):
         bad_modes = {}
         for m in MODES:
             o = obs[m]
-            got_atoms = [a for a in o['atoms'] if a in sent]
+            got_atoms = [a.upper() for a in o['atoms'] if a.upper() in sent]
             if o['inner'] is not None:
                 kind = 'raise=' + o['inner']
             elif o['outer'] is not None:
@@ -393,7 +395,7 @@ def evaluate(ctx, cases, stream=None):
         for kind, ms in bad_modes.items():
             o = obs[ms[0]]
             msel = 'all' if len(ms) == 3 else '+'.join(ms)
-            lost = [a for a in want_atoms if a not in o['atoms']]
+            lost = [a for a in want_atoms if a not in [x.upper() for x in o['atoms']]]
             ctx.fail(f'{base}|{kind}|modes={msel}',
                      f'valid `{" ".join([case.get("kwtext", case["kw"])] + case["toks"])}` ({case["pos"]}) in {msel} mode(s): {kind}; '
                      f'parse stopped at line {o["errline"] + 1} of {nphys}; atoms not recognised: {lost}', payload)
@@ -433,9 +435,14 @@ def valid_cases(tab, suffixes=('',)):
                             c['nsfac'] = len(toks) if all(k == 'word' for k in kinds) else 1
                         if row['kw'] == 'UNIT':
                             c['nsfac'] = len(toks)
-                        if row['kw'] == 'WGHT':
-                            pass
                         out.append(c)
+                        # spelling variants: once per (keyword, form), at the keyword's own slot / in the instruction section
+                        if pos in ('instr',) + tuple(p for p in SLOT_POS if p != 'body') and not sfx and v.get('symm', True):
+                            names = row['suffix'] and row['kw'] not in ('OMIT',)
+                            for sv in spellings(c, kinds, names):
+                                if [classify(t) for t in sv['toks']] != [classify(t) for t in c['toks']]:
+                                    raise RuntimeError(f'harness: spelling changed the lexical classes: {sv}')
+                                out.append(sv)
     # WGHT also after END (the weighting scheme SHELXL suggests)
     for row in tab['syntax']:
         if row['kw'] in ('WGHT', 'REM'):
@@ -446,11 +453,83 @@ def valid_cases(tab, suffixes=('',)):
         toks = atom_tokens(kinds)
         for wrap in ([False, True] if len(kinds) >= 11 else [False]):
             out.append(dict(stream='valid', kw='C9', toks=toks, pos='atomline', wrap=wrap))
+        if 'big' in kinds[1:4]:
+            continue        # (coded coordinates are the open finding: its spelling variants add nothing)
+        out.append(dict(stream='valid', kw='C9', kwtext='c9', toks=toks, pos='atomline', spell='case=lower'))
+        for how in NUMSTYLES:
+            t2 = toks[:1] + [respell_number(t, how) for t in toks[1:]]
+            if [classify(t) for t in t2] == [classify(t) for t in toks]:
+                out.append(dict(stream='valid', kw='C9', toks=t2, pos='atomline', spell='numbers=' + how))
     # FRAG ... FEND blocks
     for head in (['FRAG'], ['FRAG', '17'], ['FRAG', '17', '1', '1', '1', '90', '90', '90'], ['FRAG', '17', '7.5', '8.5', '9.5', '90', '95.5', '90']):
         for coords in (['0.1', '0.2', '0.3'], ['1.25', '-2.5', '0.75'], ['5.25', '-6.5', '0.75']):
             blk = [head, ['C7', '1'] + coords, ['C8', '1'] + [coords[1], coords[2], coords[0]], ['FEND']]
             out.append(dict(stream='valid', kw='FRAG', toks=head[1:], pos='frag', block=blk))
+    return out
+
+
+# SHELXL is case-insensitive and free-format: the same instruction may be spelled in several ways.  A *spelling*
+# changes neither keyword nor lexical classes of the tokens (so the model's abstract line is the same).
+KWCASES = ('lower', 'title', 'mixed')
+NUMSTYLES = ('exp', 'plus')
+WORDSTYLES = ('lower', 'special')
+
+
+def recase(text, how):
+    if how == 'lower':
+        return text.lower()
+    if how == 'title':
+        return text[:1].upper() + text[1:].lower()
+    if how == 'mixed':
+        return ''.join(ch.lower() if i % 2 else ch.upper() for i, ch in enumerate(text))
+    return text
+
+
+def respell_number(tok, how):
+    """the same real in exponent notation / with an explicit plus sign (kind and value unchanged)"""
+    k = classify(tok)
+    if k not in ('num', 'big') or tok[0] in '+-' and how == 'plus':
+        return tok
+    if how == 'exp':
+        sign, body = (tok[0], tok[1:]) if tok[0] in '+-' else ('', tok)
+        ip, _, fp = body.partition('.')
+        return f'{sign}0.{ip}{fp}E+{len(ip)}'        # 2.5 -> 0.25E+1 (keeps the decimal point: same lexical class)
+    return '+' + tok
+
+
+def respell_words(toks, how):
+    words = [i for i, t in enumerate(toks) if classify(t) == 'word']
+    out = list(toks)
+    if how == 'lower':
+        return [t.lower() if i in words else t for i, t in enumerate(toks)]
+    # atom-list notations: range operators, residue / symmetry suffixes, element wildcards (all lexical class `word`)
+    if len(words) >= 3:
+        out[words[1]] = '>' if len(words) % 2 else '<'
+    for n, i in enumerate(words[:1] + words[2:]):
+        if re.fullmatch(r'[A-Z][A-Za-z]?\d+', out[i]):
+            out[i] = out[i] + ('_2', '_$1')[n % 2] if n % 4 != 3 else '$' + out[i][0]
+    return out
+
+
+def spellings(c, kinds, has_atom_names):
+    """the spelling variants of one valid case (keyword case, number notation, word notation)"""
+    out = []
+    for how in KWCASES:
+        v = dict(c, kwtext=recase(c.get('kwtext', c['kw']), how), spell='case=' + how)
+        out.append(v)
+    if any(k in ('num', 'big') for k in kinds):
+        for how in NUMSTYLES:
+            toks = [respell_number(t, how) for t in c['toks']]
+            if toks != c['toks']:
+                out.append(dict(c, toks=toks, spell='numbers=' + how))
+    if 'word' in kinds:
+        low = respell_words(c['toks'], 'lower')
+        if low != c['toks']:
+            out.append(dict(c, toks=low, spell='words=lower'))
+        if has_atom_names:
+            sp = respell_words(c['toks'], 'special')
+            if sp != c['toks']:
+                out.append(dict(c, toks=sp, spell='words=special'))
     return out
 
 
@@ -471,7 +550,7 @@ def near_cases(rng, valid, n):
     """one-token damage of valid lines: not valid input any more"""
     out = []
     cand = [c for c in valid if c['pos'] in ('instr', 'atoms', 'atomline') and not c.get('kwtext')]
-    repl = dict(int=['2.5', 'C1'], num=['C1', '-x,', '7'], dnum=['C1'], big=['C1', '0.5'], word=['2.5', '3'], sym=['C1', '1.5'])
+    repl = dict(int=['2.5', 'C1', '5E-1'], num=['C1', '-x,', '7', '25E-1'], dnum=['C1'], big=['C1', '0.5', '1e1'], word=['2.5', '3', '1e0'], sym=['C1', '1.5'], enum=['C1', '2'])
     for _ in range(n):
         c = dict(rng.choice(cand))
         toks = list(c['toks'])
@@ -545,6 +624,32 @@ def mutants(rng, valid, n):
     return out
 
 
+HOSTILE = ['0', '-0', '0.0', '1e999', '-1e999', 'nan', 'inf', '99999999999999999999', '1e-320', '-7', '8', '1_0']
+
+
+def hostile_cases(valid):
+    """deterministic part of the malformed stream: every valid instruction with one numeric parameter replaced by an
+    extreme / degenerate value (zero, overflow, nan, inf, huge, denormal, out-of-range small integers) — the damage that
+    makes a parser fail with *unusual* exception types (KeyError, ZeroDivisionError, OverflowError ...)"""
+    out = []
+    n = 0
+    for c in valid:
+        if c.get('spell') or c.get('kwtext') or c['pos'] in ('pre', 'atoms', 'post', 'frag', 'tail') or not c.get('symm', True):
+            continue
+        nums = [i for i, t in enumerate(c['toks']) if classify(t) in ('int', 'num', 'big', 'dnum')]
+        if not nums:
+            continue
+        for h in HOSTILE:
+            i = nums[n % len(nums)]
+            n += 1
+            toks = list(c['toks'])
+            toks[i] = h
+            lines = build(dict(c, toks=toks))
+            text, _, _ = render(lines)
+            out.append(dict(stream='mutant', kw=c['kw'], toks=toks, pos=c['pos'], text=text, mut='hostile-value'))
+    return out
+
+
 def run(ctx):
     ctx.rule = ('one case = one instruction line (keyword, concrete tokens, residue suffix) at one position of a by-construction file, '
                 'parsed in quiet, verbose and debug mode; distinct by (keyword text, tokens, position, header variant); non-trivial = the '
@@ -562,6 +667,6 @@ def run(ctx):
     ctx.extra['product'] = 'every keyword x every form of the syntax table x every position x 3 modes (exhaustive in both tiers)'
     near = near_cases(ctx.rng, valid, ctx.budget(600, 6000))
     mut = mutants(ctx.rng, valid, ctx.budget(1500, 50000))
-    cases = valid + near + mut
+    cases = valid + near + hostile_cases(valid) + mut
     for i in range(0, len(cases), 1000):
         evaluate(ctx, cases[i:i + 1000])
